@@ -97,6 +97,9 @@ namespace cgi {
 				h(booster::system::error_code(errc::protocol_violation,cppcms_category));
 				return;
 			}
+			// the block is parsed as a sequence of C strings, make sure the
+			// last one is NUL terminated even if the peer did not do it
+			buffer_.back() = 0;
 
 			char const *p=&buffer_[sep_ + 1];
 			while(p < &buffer_.back()) {
